@@ -368,6 +368,10 @@ let run_case_b variant line isegs =
         | ["BT"; k] ->
           let g = gate k in
           if not g.exists then None else (let o = IT (cur_sid k g) in g.exists <- false; Some ("bt", [(o, "")], 0, Some (k, g)))
+        | ["BE"; k] ->
+          (* one tick of cleanupSessions for this session (lease expired / half-open and idle) *)
+          let g = gate k in
+          if not g.exists then None else (let o = IE (cur_sid k g) in g.exists <- false; Some ("be", [(o, "")], 0, Some (k, g)))
         | ["BX"; k] -> let g = gate k in Some ("bx", [(IA (cur_sid k g), "")], 0, Some (k, g))
         | _ -> None in
       (match plan with
